@@ -17,6 +17,16 @@ def showOut : Out → String
   | .norm _ => "norm" | .brk _ => "brk" | .cont _ => "cont" | .ret => "ret" | .stuck => "stuck"
   | .panic s => s!"panic:{s}"
 
+/-- Run-length hex (harness/c09/hexz.go): segments joined by `.`, each plain hex or
+`<hh>x<count>` (one byte repeated); well-formedness only - the prediction for a served input
+does not depend on its bytes, and a 1 MiB run is not expanded. -/
+def hexzValid (s : String) : Bool :=
+  s == "-" || (s.splitOn ".").all fun seg =>
+    match seg.splitOn "x" with
+    | [h] => !h.isEmpty && (hexDecode h).isSome
+    | [h, n] => h.length == 2 && (hexDecode h).isSome && n.toNat?.isSome
+    | _ => false
+
 def handle (args : List String) : Option String :=
   match args with
   | ["flagged", sk] => do
@@ -32,9 +42,8 @@ def handle (args : List String) : Option String :=
     let s ← decode sk
     let k ← site.toNat?
     pure (if (flagged s).contains k then "flagged" else "missed")
-  | ["serve", inp] => do
-    let _ ← hexDecode inp
-    pure "ok"
+  | ["serve", inp] =>
+    if hexzValid inp then some "ok" else none
   | ["nego", role, _mechs, chunks, sf] => do
     -- SASL negotiation against a scripted peer through NewSession / ReceiveSession.  `sf` is
     -- the server-first message the real SCRAM client is about to parse (hex, `-` if none): the
@@ -57,8 +66,7 @@ def handle (args : List String) : Option String :=
     if pages.isEmpty then none else pure "ok"
   | ["helper", name, _typ, reply] => do
     let _ ← hexDecode name
-    let _ ← hexDecode reply
-    pure "ok"
+    if hexzValid reply then pure "ok" else none
   | _ => none
 
 end XmppModel.Driver.C09
